@@ -6,15 +6,21 @@ SPEC = {
     'audit_file': 'AgdbSearch/Audit/C17.lean',
     'full_theorems': ['C17_filter', 'C17_cost', 'C17_valid', 'C17_optimal', 'C17_empty_iff', 'C17_static_conditions'],
     'partial_theorems': ['C17_optimal_partial'],
-    'counterexamples': [],
+    'counterexamples': ['C17_distance_dependent_counterexample'],
     'driver': 'searchmodel',
     'harness_bin': 'harness_search',
-    'level': 'proof',
-    'level_text': "Lean 4 theorems for every graph (no size bound): C17_valid — for ANY conditions the path found is empty or an alternating directed node/edge path origin→destination over usable elements with flags = the conditions' answers and cost = sum of 1/2 element costs; C17_filter — the listed ids are its elements that pass; for conditions that do not depend on the distance (C17_static_conditions: every tree without a `distance` atom) C17_optimal — no usable path is cheaper (Dijkstra invariant over the re-sorted path list with lazy deletion) and C17_empty_iff — the path is empty exactly when origin = destination, an endpoint is not an existing node, or no usable path exists. For distance-dependent conditions optimality is only the stated C17_optimal_statement (C17_optimal_partial proves it under distance-independence); that region is searched by the harness.",
+    'level': 'other',
+    'level_text': ("Recorded finding: with distance-dependent conditions the property is FALSE of the code (C17_distance_dependent_counterexample, "
+        "known finding C17/distance-dependent/PathSearch::process_index: empty result although a usable path exists). What IS proved in Lean 4, for every graph "
+        "(no size bound): C17_valid — for ANY conditions the path found is empty or an alternating directed node/edge path origin→destination over usable elements "
+        "with flags = the conditions' answers and cost = sum of 1/2 element costs; C17_filter — the listed ids are its elements that pass; and for all conditions that "
+        "do not depend on the distance (C17_static_conditions: every tree without a `distance` atom) C17_optimal — no usable path is cheaper (Dijkstra invariant over "
+        "the re-sorted path list with lazy deletion) and C17_empty_iff — the path is empty exactly when origin = destination, an endpoint is not an existing node, or "
+        "no usable path exists. The harness compares with a reference Dijkstra (static) and a brute-force optimum over simple paths (distance conditions, small graphs)."),
     'level_note': "Trusted: Lean kernel; the hand-written model (lean/AgdbSearch/AgdbSearch/Model) being a faithful rendering of the Rust search code — validated, not verified, by the `search` correspondence stream (every generated op line compared, public API only, ids included so slot reuse is reproduced); the abstract graph (slot table + most-recent-first chains) standing for graph.rs's four i64 arrays (C08's refinement); rustc/std (`sort_by` stable, VecDeque/Vec). 'Result empty exactly when…' is read on the path found; the listed ids are additionally empty when no element of the cheapest path passes the conditions (C17_filter).",
     'technique': 'Lean 4: loop invariants of PathSearch (every queued path is a real usable path with its true cost; settled nodes carry their optimal cost; frontier domination) with a structurally recursive stable insertion sort standing for sort_by; differential correspondence + reference Dijkstra oracle on exhaustive small multigraphs and random graphs',
     'design_ref': 'DESIGN.md §6 C17',
-    'assumptions': ['optimality with distance-dependent conditions is validated by testing only', 'path-search distances follow proposed_fixes/C15-path-edge-distance.diff'],
+    'assumptions': ['with distance-dependent conditions optimality / the empty-iff clause are FALSE (C17_distance_dependent_counterexample; known finding C17/distance-dependent/PathSearch::process_index); only C17_valid and C17_filter hold there', 'path-search distances follow proposed_fixes/C15-path-edge-distance.diff'],
     'quick': {'extra_args': []},
     'thorough': {'extra_args': []},
     'compare': 'lines',
